@@ -167,6 +167,8 @@ def gen_grid(rng, tier):
         best = max(adds, key=lambda x: x[1])
         for a in [best] + [rng.choice(adds) for _ in range(rng.randint(0, 2))]:
             case["adds"].append([list(a[0]), a[1] - rng.choice([0.5, 1.0, 3.25])])
+        # explicit colour limits must stay consistent with what can end up stored (every objective submitted, replacements included)
+        case["opts"] = gen_common_opts(rng, [x[1] for x in case["adds"]], allow_transpose=(ndim == 2))
     return case
 
 
